@@ -248,6 +248,12 @@ def source_literals(pid, exact_first=False):
                     and isinstance(n.right, ast.Constant) and isinstance(n.left.value, int) \
                     and isinstance(n.right.value, int) and 0 <= n.right.value <= 300 and abs(n.left.value) <= 300:
                 lits.add(n.left.value ** n.right.value)
+            if isinstance(n, ast.BinOp) and isinstance(n.op, (ast.LShift, ast.Mult)) and isinstance(n.left, ast.Constant) \
+                    and isinstance(n.right, ast.Constant) and type(n.left.value) is int and type(n.right.value) is int:
+                if isinstance(n.op, ast.LShift) and 0 <= n.right.value <= 64 and 0 < n.left.value <= 1024:
+                    lits.add(n.left.value << n.right.value)
+                elif isinstance(n.op, ast.Mult) and 0 < n.left.value <= 2 ** 20 and 0 < n.right.value <= 2 ** 20:
+                    lits.add(n.left.value * n.right.value)
     out = set()
     for v in lits:
         for d in (-1, 0, 1):
@@ -781,6 +787,128 @@ def decide(pid, tier, seed, replay, t0):
         info["forked_child_cases"] = n_fk
     except Exception as e:      # noqa
         info["forked_child_cases"] = "error %r" % e
+    # ---- the caller changes what it received: every list / dict handed back is emptied by the harness and the request
+    # is repeated — a library that hands out its own tables or cached results by reference answers differently
+    try:
+        rng8 = random.Random(seed + 401)
+        cand = [i for i in range(len(lines)) if len(lines[i]) < 20000 and impl_out[i].startswith("ok")]
+        pick = stratified(rng8, cand, min(len(cand), 150 if tier == "quick" else 2000))
+        pick = within_budget(pick, 2.5 if tier == "quick" else 120.0)
+        n_mu = 0
+        for i in pick:
+            o2 = impl.run_mut(lines[i])
+            n_mu += 1
+            if o2 != impl_out[i] and impl.run_plain(lines[i]) != o2:
+                again = impl.run_plain(lines[i])
+                msg = None
+                if again != impl_out[i]:
+                    try:
+                        msg = mod.oracle(full_lines[i], again) or "the answer now differs from the first one (%s...)" % again[:60]
+                    except Exception:
+                        msg = "the answer now differs from the first one"
+                elif o2.startswith("ok"):
+                    try:
+                        msg = mod.oracle(full_lines[i], o2)
+                    except Exception:
+                        msg = None
+                if msg and not mod.known_match(full_lines[i], o2, msg, known):
+                    failures.append((full_lines[i], "after the caller emptied the lists / dicts it had received from the "
+                                                    "same request: " + msg))
+                    if len(failures) > 20:
+                        break
+            elif o2 != impl_out[i] and o2.startswith("ok"):
+                try:
+                    msg = mod.oracle(full_lines[i], o2)
+                except Exception:
+                    msg = None
+                if msg and not mod.known_match(full_lines[i], o2, msg, known):
+                    failures.append((full_lines[i], "after the caller emptied the lists / dicts it had received from the "
+                                                    "same request: " + msg))
+        info["result_mutation_cases"] = n_mu
+    except Exception as e:      # noqa
+        info["result_mutation_cases"] = "error %r" % e
+    # ---- a long-running process: base requests are answered, then S DISTINCT other requests of the property's own
+    # kinds are served (the case generators with fresh seeds; S lies above every small integer literal of the source, so
+    # that a capacity / eviction constant in the code is exceeded), then the base requests are asked again
+    try:
+        from props import common as _common
+        S = _common.soak_size(pid, tier)
+        rng9 = random.Random(seed + 503)
+        cand = [i for i in range(len(lines)) if len(lines[i]) < 5000 and impl_out[i].startswith("ok")]
+        base = stratified(rng9, cand, min(len(cand), 80 if tier == "quick" else 400))
+        base = within_budget(base, 3.0 if tier == "quick" else 60.0)
+        by_kind = {}
+        for l_, t_ in zip(lines, impl_t):
+            k_ = l_.split(" ", 1)[0]
+            a_ = by_kind.setdefault(k_, [0, 0.0])
+            a_[0] += 1
+            a_[1] += t_
+        cheap = {k_ for k_, (n_, t_) in by_kind.items() if t_ / n_ < (0.01 if tier == "quick" else 0.05)}
+        seen, t_fill, r_ = set(lines), time.time(), 0
+        limit = 25.0 if tier == "quick" else 900.0
+        n_fill = 0
+        # corner requests of the basic kinds the property's source files deal with, asked now and again at the end
+        kinds = _common.soak_kinds(pid)
+        corner = []
+        for l_ in _common.soak_corner_lines(kinds, rng9):
+            o_ = impl.run_plain(l_)
+            if o_.startswith("ok"):
+                corner.append((l_, o_))
+        filler_log = []
+        # S rounds of fresh requests of those kinds (every cache of a capacity below S wraps, whatever it is keyed by)
+        gen_ = _common.soak_filler(kinds, rng9)
+        while kinds and n_fill < S * len(kinds) and time.time() - t_fill < limit:
+            l_ = next(gen_)
+            impl.run_plain(l_)
+            filler_log.append(l_)
+            n_fill += 1
+        for l_, o_ in corner:
+            o2 = impl.run_plain(l_)
+            if o2 != o_:
+                try:
+                    msg = mod.oracle(l_, o2)
+                except Exception:
+                    msg = None
+                msg = msg or "the answer differs from the one given at the start of the process (%s... before, %s... now)" % (
+                    o_[:60], o2[:60])
+                failures.append((l_, "asked again after %d other distinct requests in the same process: %s" % (n_fill, msg)))
+                context[l_] = [l_] + filler_log
+                break
+        while n_fill < S and time.time() - t_fill < limit and r_ < 400 and cheap:
+            r_ += 1
+            before_round = n_fill
+            for c in mod.cases(random.Random(seed * 7919 + 1000 + r_), "quick"):
+                l_ = c[0].split(" #")[0]
+                if l_ in seen or len(l_) > 5000 or l_.split(" ", 1)[0] not in cheap:
+                    continue
+                seen.add(l_)
+                impl.run_plain(l_)
+                n_fill += 1
+                if n_fill >= S or time.time() - t_fill > limit:
+                    break
+            if n_fill == before_round:
+                break
+        n_re = 0
+        for i in base:
+            o2 = impl.run_plain(lines[i])
+            n_re += 1
+            if o2 != impl_out[i]:
+                try:
+                    msg = mod.oracle(full_lines[i], o2)
+                except Exception:
+                    msg = None
+                msg = msg or "the answer differs from the one given at the start of the process (%s... before, %s... now)" % (
+                    impl_out[i][:50], o2[:50])
+                if not mod.known_match(full_lines[i], o2, msg, known):
+                    failures.append((full_lines[i], "asked again after %d other distinct requests in the same process: %s" % (
+                        n_fill, msg)))
+                    if len(failures) > 20:
+                        break
+        info["soak_filler_requests"] = n_fill
+        info["soak_target"] = S
+        info["soak_reasked"] = n_re
+    except Exception as e:      # noqa
+        info["soak_filler_requests"] = "error %r" % e
     # ---- something broke: search harder for a concrete failing input
     searched = 0
     probed = 0
@@ -822,6 +950,10 @@ def decide(pid, tier, seed, replay, t0):
         "optimized_interpreter_cases": info.get("optimized_interpreter_cases", 0),
         "alternative_form_cases": info.get("alternative_form_cases", 0),
         "forked_child_cases": info.get("forked_child_cases", 0),
+        "result_mutation_cases": info.get("result_mutation_cases", 0),
+        "soak_filler_requests": info.get("soak_filler_requests", 0),
+        "soak_target": info.get("soak_target", 0),
+        "soak_reasked": info.get("soak_reasked", 0),
         "forked_child_differences": info.get("forked_child_differences", 0),
         "copy_cases": info.get("copy_cases", 0), "copy_differences": info.get("copy_differences", 0),
         "worker_thread_cases": info.get("worker_thread_cases", 0),
